@@ -105,6 +105,10 @@ def tasks(tier, seed):
     # steps that stop by a residual tolerance (every convergence pattern, later steps converging first included) with one restart request
     for h, K in ([((2, 1, 3, False, True), 2), ((3, 1, 3, False, True), 2)] if quick else [((2, 1, 3, False, True), 3), ((3, 1, 4, False, True), 2), ((2, 1, 3, True, True), 2), ((3, 1, 3, False, False), 2)]):
         T.append(('hist',) + h + ([], {'shrink': False, 'conv': K}))
+    # the configured number of retries is zero (never retry: the first request ends the run, or is passed over)
+    for h in [(1, 0, 2, False, True), (2, 0, 3, False, False), (2, 0, 3, True, True)] + ([] if quick else [(3, 0, 4, False, True), (3, 0, 4, False, False)]):
+        T.append(('hist',) + h + ([],))
+        T.append(('hist',) + h + ([], True))
     for h in hist:
         depth = 0 if h[0] < 3 else (3 if quick else 4)
         for bits in range(2 ** depth):
